@@ -15,6 +15,8 @@ SYSTEM_LOGS = [
     "tests/systems/heat_zxdavb/packet.log",
     "tests/systems/heat_ufc_00/packet.log",
     "tests/systems/_heat_trv_00/packet.log",
+    "tests/systems/_heat_trv_00/packet.log#digest",
+    "tests/systems/heat_ufc_00/packet.log#digest",
 ]
 OTHER_LOGS = [
     "tests/schemas/log_files/schema_300.log",
@@ -27,12 +29,29 @@ OTHER_LOGS = [
 
 
 def log(rel: str) -> list[tuple[str, str, str]]:
-    """[(dtm, rssi, frame)] of one repo log."""
+    """[(dtm, rssi, frame)] of one repo log; 'path#digest' = its first 25 lines + the first occurrence of every further
+    (verb, code, sender type, first payload byte), in order - a short history with the variety of the long one."""
+    if rel.endswith("#digest"):
+        full = list(corpus.log_lines(rel[:-7]))
+        out, seen = list(full[:25]), set()
+        for ln in full[25:]:
+            f = ln[2].split()
+            k = (ln[2][:2], f[-3], f[-6][:2], f[-1][:2])
+            if k not in seen:
+                seen.add(k)
+                out.append(ln)
+        return out[:160]
     return list(corpus.log_lines(rel))
 
 
+def parser_logs() -> list[str]:
+    import os
+
+    return sorted(os.path.relpath(f, corpus.TESTS) for f in corpus.log_files() if "/parsers/" in f and corpus.log_lines(os.path.relpath(f, corpus.TESTS)))
+
+
 def available(rels) -> list[str]:
-    return [r for r in rels if corpus.log_lines(r)]
+    return [r for r in rels if log(r)]
 
 
 def feed(w: G.GwyWorld, line: tuple[str, str, str]) -> None:
@@ -125,7 +144,7 @@ MUTATIONS = [
     ("12B0", r" I|RP", r"^(..)(....)$", lambda m: [m.group(1) + v for v in ("C800", "0000", "FFFF")]),
     ("2349", r" I|RP", r"^(..)(....)(..)(.*)$", lambda m: [m.group(1) + "7FFF" + m.group(3) + m.group(4), m.group(1) + m.group(2) + "04" + m.group(4)]),
     ("0005", r"RP| I", r"^(....)(....)$", lambda m: [m.group(1) + "FFFF", m.group(1) + "0000"]),
-    ("1FC9", r" I|RP| W", r"^(.*)$", lambda m: ["00"] if False else []),
+    ("1FC9", r" I", r"^(.*)$", lambda m: ["00", "21"]),
     ("3220", r"RP", r"^(..)(..)(..)(....)$", lambda m: [m.group(1) + m.group(2) + m.group(3) + v for v in ("FFFF", "0000", "7FFF")]),
 ]
 
@@ -147,8 +166,9 @@ def field_mutations(frame: str) -> list[str]:
         if not m:
             continue
         for new in fn(m):
-            if new != pl and len(new) == len(pl) and re.match(rx, new):
-                g = frame[: frame.rfind(" ") + 1] + new
+            if new != pl and re.match(rx, new):
+                head = frame[: frame.rfind(" ")]
+                g = head[: head.rfind(" ") + 1] + f"{len(new) // 2:03d} " + new
                 if g not in out:
                     out.append(g)
     return out
@@ -167,11 +187,48 @@ def single_edits(lines: list, splice_from: list[list] | None = None, fields: boo
             for k, g in enumerate(field_mutations(fr)):
                 yield f"mut@{i}.{k}", i, lines[:i] + [(d, r, g)] + lines[i + 1 :]
     for si, other in enumerate(splice_from or []):
+        dig = digest(other)
         for i in range(0, n + 1):
             # the neighbour's packets arrive now (not at their recorded date): stamp them just after line i-1
-            t0 = dt.fromisoformat(lines[i - 1][0] if i else lines[0][0])
-            seg = [((t0 + td(milliseconds=20 * (k + 1))).isoformat(timespec="microseconds"), r, fr) for k, (_d, r, fr) in enumerate(other[:40])]
-            yield f"splice{si}@{i}", i, lines[:i] + seg + lines[i:]
+            yield f"splice{si}@{i}", i, lines[:i] + restamp(dig, lines, i) + lines[i:]
+    if splice_from is not None:
+        for i in range(0, n + 1):
+            # (packets that carry device ids inside the payload would name OUR devices: leave those out of the clone)
+            seg = [neighbour(x) for x in lines[max(0, i - 20) : i + 20] if x[2].split()[-3] not in ("000C", "1FC9", "0418", "0016", "1FD4")]
+            yield f"clone@{i}", i, lines[:i] + restamp(seg, lines, i) + lines[i:]
+
+
+def restamp(seg: list, lines: list, i: int) -> list:
+    t0 = dt.fromisoformat(lines[i - 1][0] if i else lines[0][0])
+    return [((t0 + td(milliseconds=20 * (k + 1))).isoformat(timespec="microseconds"), r, fr) for k, (_d, r, fr) in enumerate(seg)]
+
+
+def digest(other: list, limit: int = 45) -> list:
+    """The first 15 lines of another system's log + the first occurrence of every further (verb, code, sender type)."""
+    out = list(other[:15])
+    seen = {(fr[:2], fr.split()[-3], fr.split()[-6][:2]) for _d, _r, fr in out}
+    for ln in other[15:]:
+        k = (ln[2][:2], ln[2].split()[-3], ln[2].split()[-6][:2])
+        if k not in seen:
+            seen.add(k)
+            out.append(ln)
+            if len(out) >= limit:
+                break
+    return out
+
+
+_ID = re.compile(r"\b(\d\d):(\d{6})\b")
+
+
+def neighbour(line: tuple) -> tuple:
+    """The same packet as sent in a neighbour's identical installation: every device id moved by +1000, and an
+    extreme-value field mutation applied where one exists (so that leaked state would show)."""
+    d, r, fr = line
+    g = _ID.sub(lambda m: m.group(0) if m.group(0) in ("63:262142", "18:000730") else f"{m.group(1)}:{(int(m.group(2)) + 1000) % 262142:06d}", fr)
+    muts = field_mutations(g)
+    if muts and g.split()[-3] not in ("000C", "0005", "1FC9", "0418", "313F"):
+        g = muts[0]
+    return d, r, g
 
 
 def retime(lines: list) -> list:
